@@ -172,6 +172,30 @@ def rule_y3(chk: Check, ix: Index):
                             "empty for the NEWLINE fabricated at the end of input (`if x` without a final newline reports text '')")
 
 
+def rule_positionless_wrappers(chk: Check, ix: Index):
+    """`make_syntax_error(message)` builds an error without positions (upstream pegen's spelling); it is kept for compatibility and
+    exempt at its definition, but a *use* of it from the parser's own code is a position-less build like any other."""
+    wrappers = set()
+    for q, g in ix.funcs.items():
+        if g.cls == "Parser":
+            for c in own_nodes(g.node):
+                if isinstance(c, ast.Call) and norm_stmt(c.func) == "self._build_syntax_error":
+                    n_pos = len(c.args) + sum(1 for k in c.keywords if k.arg in ("start", "end"))
+                    if n_pos < 3:
+                        wrappers.add(g.node.name)
+    for q, g in sorted(ix.funcs.items()):
+        if g.rel not in (repo.SUBHEADER, repo.PARSER_X):
+            continue
+        for c in own_nodes(g.node):
+            if isinstance(c, ast.Call) and isinstance(c.func, ast.Attribute) and norm_stmt(c.func.value) == "self" and c.func.attr in wrappers \
+                    and g.node.name not in wrappers:
+                chk.count("Y3-text-provenance")
+                chk.fail("Y3-text-provenance", f"{q}:{norm_stmt(c)[:50]}", f"{g.rel}:{c.lineno}",
+                         f"`{q}` builds its error through `{c.func.attr}`, which gives no start and end: the text is then the diagnosed "
+                         f"token's own `line`, empty for the NEWLINE fabricated at the end of input (`x = = 1` without a final newline "
+                         f"reports text '')")
+
+
 def _whole_text(e: ast.expr) -> str:
     """`text`, `text[0:]` / `text[:]` (a string's full slice is the string) and a conditional between such forms are one value."""
     if isinstance(e, ast.Subscript) and isinstance(e.slice, ast.Slice) and e.slice.upper is None and e.slice.step is None and \
@@ -348,6 +372,7 @@ def _run(chk: Check):
     chk.assumptions = ["token coordinates themselves are right (C08)", "the line lookup is total (rule E3-line-lookup of C03)"]
     ix = Index()
     rule_y1(chk, ix)
+    rule_positionless_wrappers(chk, ix)
     rule_y2(chk, ix)
     rule_y3(chk, ix)
     rule_y3b(chk, ix)
